@@ -378,6 +378,10 @@ def generate(tier):
         for m in ms:
             for vi in (0, 1):
                 bad('bad-position', 'en|variant%d|%s' % (vi, m), req(EN, host, v={vi: [m]}), req(EN, host))
+    both = ['PartialEq', 'Eq', 'PartialOrd', 'Ord']
+    for m in ('PartialOrd', 'PartialOrd(bound = false)', 'PartialOrd(bound(u8: Copy))', 'PartialOrd(rank = 1)', 'PartialOrd(ignore)', 'Ord', 'Ord(bound = false)', 'Ord(rank = 1)', 'Eq', 'Eq(bound = false)', 'PartialEq(bound = false)'):
+        for vi in (0, 1):
+            bad('bad-position', 'en|variant%d|both-ord|%s' % (vi, m), req(EN, both, v={vi: [m]}), req(EN, both))
     # named_field at enum level, flag-only forms where a value is needed
     bad('bad-position', 'en|type|named_field', req(EN, [], ['Debug(named_field = true)']), req(EN, ['Debug']))
     bad('bad-position', 'en|type|named_field(false)', req(EN, [], ['Debug(named_field(false))']), req(EN, ['Debug']))
